@@ -20,10 +20,22 @@ def make_td(n_items, seed, env_name):
     return env, td
 
 
-def build(kind, td):
+def extra_of(uid, dtype="float32"):
+    """a per-instance value that is a function of the instance id, in the requested dtype (ids above 2**24 and doubles are not
+    representable in float32: a cast on the way shows)"""
+    if dtype == "int64":
+        return uid.long() * 3 + 2**24 + 1
+    if dtype == "float64":
+        return uid.double() / 3 + 1e-9
+    if dtype == "bool":
+        return (uid % 2 == 1)
+    return uid.float() * 0.5 + 1
+
+
+def build(kind, td, extra_dtype="float32"):
     from rl4co.data.dataset import ExtraKeyDataset, FastTdDataset, TensorDictDataset, TensorDictDatasetFastGeneration
 
-    extra = td["uid"].float() * 0.5 + 1  # a function of the instance id: must travel with its instance
+    extra = extra_of(td["uid"], extra_dtype)  # a function of the instance id: must travel with its instance
     if kind == "td":
         return TensorDictDataset(td.clone()), None
     if kind == "fast":
@@ -58,8 +70,10 @@ def roundtrip_case(ctx, case):
     kind, N, bs, shuffle, seed = case["ds"], case["N"], case["bs"], case["shuffle"], case["s"]
     env, td = make_td(N, seed, case.get("env", "cvrp"))
     fp0 = td_fingerprint(td)
-    ds, extra = build(kind, td)
+    ds, extra = build(kind, td, case.get("extra_dtype", "float32"))
     sig = dict(ds=kind, shuffle=shuffle)
+    if case.get("extra_dtype", "float32") != "float32":
+        sig["extra_dtype"] = case["extra_dtype"]
     module = None
     if case.get("via_module"):
         from rl4co.models import REINFORCE
@@ -109,7 +123,12 @@ def roundtrip_case(ctx, case):
                 ctx.violation(dict(sig, q="extra_missing"), f"extra key '{key}' missing from the batches", None)
                 return
             ctx.count("c17_extra_checks", N)
-            if not torch.equal(allb[key].float().reshape(N), (uid.float() * 0.5 + 1)):
+            want_x = extra_of(uid, case.get("extra_dtype", "float32"))
+            got_x = allb[key].reshape(N)
+            if got_x.dtype != want_x.dtype:
+                ctx.violation(dict(sig, q="extra_dtype"), f"the extra per-instance value comes back as {got_x.dtype}, it was attached as {want_x.dtype}", dict(N=N, bs=bs))
+                return
+            if not torch.equal(got_x, want_x):
                 ctx.violation(dict(sig, q="extra_pairing"), "the extra per-instance value does not travel with its instance", dict(N=N, bs=bs, got=allb[key].tolist()[:8], uid=uid.tolist()[:8]))
                 return
         ctx.nontrivial_case(dict(c=case, rep=rep))
